@@ -51,21 +51,22 @@ func runC15(c *Ctx) {
 		}
 		vt, et := b.Of(e.Results[0], e.Instr), b.Of(e.Results[1], e.Instr)
 		blk := e.Instr.Block()
+		_ = blk
 		switch {
 		case matches("call<(hash.Hash).Sum>(call<(crypto.Hash).New>(load(faddr<#0>(p0))), nil)", vt) && et.Is("nil"):
 			// the empty root computed in place
 			nEmpty++
-			r.Check(mustPass(fn, blk, e0), "C15.shape.empty", c.ipos(e.Instr), "empty root returned exactly under len(data)==0")
+			r.Check(exitMustPass(fn, e, e0), "C15.shape.empty", c.ipos(e.Instr), "empty root returned exactly under len(data)==0")
 			r.Check(true, "C15.shape.empty-hash", c.ipos(e.Instr), "empty root = t.hash.New().Sum(nil) with nothing written: %s", vt)
 		case matches("call<*>(p0)", vt) && et.Is("nil"):
 			nEmpty++
 			emptyFn = calleeOf(vt)
-			r.Check(mustPass(fn, blk, e0), "C15.shape.empty", c.ipos(e.Instr), "empty root returned exactly under len(data)==0")
+			r.Check(exitMustPass(fn, e, e0), "C15.shape.empty", c.ipos(e.Instr), "empty root returned exactly under len(data)==0")
 		case matches("ext#0(call<*>(p0, load(iaddr(p1, 0))))", vt):
 			nLeaf++
 			leafFn = calleeOf(vt)
 			_, okE := ana.Match("ext#1(call<*>(p0, load(iaddr(p1, 0))))", et)
-			r.Check(mustPass(fn, blk, e1) && mustPass(fn, blk, n0) && okE && calleeOf(et) == leafFn, "C15.shape.single-leaf", c.ipos(e.Instr), "leaf hash of data[0] (value and error of the same call) returned exactly under len(data)==1")
+			r.Check(exitMustPass(fn, e, e1) && exitMustPass(fn, e, n0) && okE && calleeOf(et) == leafFn, "C15.shape.single-leaf", c.ipos(e.Instr), "leaf hash of data[0] (value and error of the same call) returned exactly under len(data)==1")
 		case et.Is("nil"):
 			nNode++
 			pat := "call<*>(p0, ext#0(" + self + "(p0, slice(p1, 0, $k))), ext#0(" + self + "(p0, slice(p1, $k, none))))"
@@ -77,11 +78,11 @@ func runC15(c *Ctx) {
 			nodeFn = calleeOf(vt)
 			_, okK := ana.Match("call<*>(len(p1))", bd["$k"])
 			split = calleeOf(bd["$k"])
-			r.Check(okK && split != nil && mustPass(fn, blk, n0) && mustPass(fn, blk, n1), "C15.shape.node", c.ipos(e.Instr), "node = H(0x01‖Hash(data[:k])‖Hash(data[k:])), k = split(len(data)), under len(data) >= 2; the two sub-slices partition the argument")
+			r.Check(okK && split != nil && exitMustPass(fn, e, n0) && exitMustPass(fn, e, n1), "C15.shape.node", c.ipos(e.Instr), "node = H(0x01‖Hash(data[:k])‖Hash(data[k:])), k = split(len(data)), under len(data) >= 2; the two sub-slices partition the argument")
 			// error gates
 			lE := plainEdges(edgesMatching(b, "bin<==>(ext#1("+self+"(p0, slice(p1, 0, _))), nil)"))
 			rE := plainEdges(edgesMatching(b, "bin<==>(ext#1("+self+"(p0, slice(p1, _, none))), nil)"))
-			r.Check(mustPass(fn, blk, lE) && mustPass(fn, blk, rE), "C15.error-discipline.both-tested", c.ipos(e.Instr), "the node hash is computed only after both recursive calls returned no error")
+			r.Check(exitMustPass(fn, e, lE) && exitMustPass(fn, e, rE), "C15.error-discipline.both-tested", c.ipos(e.Instr), "the node hash is computed only after both recursive calls returned no error")
 		default:
 			// error returns: must carry a recursive call's error and a nil hash
 			// each returned error is the error of the recursive call that failed: directly, or merged by a phi whose
@@ -92,9 +93,9 @@ func runC15(c *Ctx) {
 			failR := plainEdges(edgesMatching(b, "bin<!=>("+patR+", nil)"))
 			okProp := false
 			if _, okL := ana.Match(patL, et); okL {
-				okProp = mustPass(fn, blk, failL)
+				okProp = exitMustPass(fn, e, failL)
 			} else if _, okR := ana.Match(patR, et); okR {
-				okProp = mustPass(fn, blk, failR)
+				okProp = exitMustPass(fn, e, failR)
 			} else if phi, isPhi := e.Results[1].(*ssa.Phi); isPhi {
 				okProp = len(phi.Edges) > 0
 				for i, ev := range phi.Edges {
